@@ -426,6 +426,29 @@ impl DcpsDomainParticipant {
         participant_handle: &InstanceHandle,
         name: String,
     ) -> DdsResult<()> {
+        if !self
+            .domain_participant
+            .content_filtered_topic_list
+            .iter()
+            .any(|x| x.topic_name == name)
+        {
+            return Err(DdsError::AlreadyDeleted);
+        }
+
+        for subscriber in self.domain_participant.user_defined_subscriber_list.iter() {
+            for reader in subscriber.data_reader_list.iter() {
+                if reader.topic_name == name {
+                    return Err(DdsError::PreconditionNotMet(
+                        "Content filtered topic still attached to some data reader".to_string(),
+                    ));
+                }
+            }
+        }
+
+        self.domain_participant
+            .content_filtered_topic_list
+            .retain(|x| x.topic_name != name);
+
         Ok(())
     }
 
@@ -550,6 +573,8 @@ impl DcpsDomainParticipant {
         self.domain_participant
             .locally_created_topic_list
             .retain(|x| BUILT_IN_TOPIC_NAME_LIST.contains(&x.topic_name.as_str()));
+
+        self.domain_participant.content_filtered_topic_list.clear();
 
         Ok(())
     }
